@@ -10,7 +10,11 @@ PROP = dict(
           "and case-table (1415) boundaries; every byte string of length <= 2 over 01..FF and (thorough) every one of length 3 "
           "(quick: every 32nd of the 16,581,375 with offset VERIF_SEED mod 32, so 32 seeds cover the space); every string of length <= 5 over "
           "{7F 80 BF C0 C2 DF E0 EF F0 F4 F7 F8 FF 41 61} (00 = end of string); all UTF-16 unit strings of length <= 3 over 14 boundary units (unpaired and swapped surrogates included) "
-          "through utf16toUtf8 / String(const wchar_t*) / String(Array<wchar_t>); all pairs of code points below 1443 for "
+          "through utf16toUtf8 / String(const wchar_t*) / String(Array<wchar_t>); counted conversions with a BINDING count: every sequence of length <= 5 over "
+          "{U+41 U+7A U+E9 U+20AC U+1F600} x every count n = 1..len, and generated sequences (half ASCII, up to 60 / 300 scalars, count anywhere / "
+          "len / len-1): utf32toUtf8, utf8toUtf32, utf8toUtf16, utf16toUtf8 called with n from a longer 0-terminated source and from an "
+          "exactly-sized UNTERMINATED source in an exact heap block, plus every single element with n = 1, must return/write exactly the "
+          "reference encoding of the first n scalars (+ terminator); all pairs of code points below 1443 for "
           "a.equalsNocase(b) == (a.toLowerCase() == b.toLowerCase()). Generated (rapidcheck): well-formed texts of up to 600 (thorough 2000) "
           "scalars of mixed widths with lengths biased to 15/16/19/20/24; ill-formed strings of up to 300 bytes built from valid encodings, "
           "sequences cut short, overlong forms, surrogates, > U+10FFFF, lone continuation/lead bytes, usually ending in a lead byte without its "
@@ -29,5 +33,7 @@ PROP = dict(
                  "AddressSanitizer reports every access outside exact-size heap blocks; String inline storage ends at the end of a heap-allocated String object",
                  "wchar_t is 32 bits on this platform and UTF-16 is carried as one code unit per wchar_t (standard surrogate pairs), as asl's converters define it",
                  "conversion output buffers are sized as the library's own callers size them (bytes+1 units for UTF-8 -> 16/32, 4*units+1 bytes for 16/32 -> UTF-8)",
+                 "the count parameter of utf32toUtf8 / utf8toUtf32 / utf8toUtf16 / utf16toUtf8 is the number of code points to convert (one decrement per "
+                 "loop iteration in the unchanged code; a surrogate pair is one iteration); only n >= 1 is used (n <= 0 means 'until the terminator')",
                  "byte strings are NUL-free (NUL is the terminator); the C locale is active (LC_ALL=C set by the driver)"],
 )
